@@ -10,6 +10,7 @@ import (
 	"github.com/docker/docker/api/types"
 	apicontainer "github.com/docker/docker/api/types/container"
 	"github.com/docker/docker/client"
+	"github.com/docker/docker/errdefs"
 )
 
 var errVerifDocker = errors.New("verif: injected daemon error")
@@ -19,17 +20,18 @@ var errVerifDocker = errors.New("verif: injected daemon error")
 type fakeClient struct {
 	client.APIClient // nil: any other method panics if reached
 
-	ctrs     []types.Container
-	streams  [][]byte
-	listErr  bool
-	failOpen int // index whose ContainerLogs fails, -1 = none
-	failRead int // index whose stream reports a read error at its end, -1 = none
-	opened   []int
-	closed   []int
-	listOpts []apicontainer.ListOptions
-	logOpts  []apicontainer.LogsOptions
-	logIDs   []string
-	noGate   bool // reference runs: no place in the recorded completion order
+	ctrs         []types.Container
+	streams      [][]byte
+	listErr      bool
+	failOpen     int // index whose ContainerLogs fails, -1 = none
+	failOpenKind int // class of that error: 0 plain, 1 not found, 2 not implemented
+	failRead     int // index whose stream reports a read error at its end, -1 = none
+	opened       []int
+	closed       []int
+	listOpts     []apicontainer.ListOptions
+	logOpts      []apicontainer.LogsOptions
+	logIDs       []string
+	noGate       bool // reference runs: no place in the recorded completion order
 }
 
 func newFakeClient(n int) *fakeClient {
@@ -62,6 +64,12 @@ func (f *fakeClient) ContainerLogs(_ context.Context, id string, o apicontainer.
 	f.logOpts[idx] = o
 	f.logIDs[idx] = id
 	if idx == f.failOpen {
+		switch f.failOpenKind {
+		case 1:
+			return nil, errdefs.NotFound(errVerifDocker) // container removed between listing and opening (404)
+		case 2:
+			return nil, errdefs.NotImplemented(errVerifDocker) // logging driver cannot be read (501)
+		}
 		return nil, errVerifDocker
 	}
 	f.opened[idx]++
